@@ -1,6 +1,6 @@
 SPECIFICATION Spec
 CONSTANTS Variant = "ok"
-INVARIANTS NoUseAfterFree ResumedAtMostOnce
+INVARIANTS NoUseAfterFree ResumedAtMostOnce ResumedAtEnd CallbackNeverSeesZero NoDeadlock
 VIEW View
 ACTION_CONSTRAINT EdgeLog
 CHECK_DEADLOCK FALSE
